@@ -89,6 +89,8 @@ type Worker struct {
 	lastClock   *Term
 	fixedPos    int
 	clockReadings []value
+	boundCache    map[string]bool
+	model         map[string]uint64 // a model of the current path condition, when known
 	lastTimerDur  value
 
 	// globals (persist across paths; stores are undo-logged)
@@ -228,6 +230,8 @@ func (w *Worker) runPath(prefix []Decision) {
 	w.lastClock = nil
 	w.fixedPos = 0
 	w.clockReadings = nil
+	w.boundCache = map[string]bool{}
+	w.model = nil
 	w.lastTimerDur = nil
 	w.tt = NewTermTable()
 	w.solver.Reset()
@@ -251,7 +255,9 @@ func (w *Worker) runPath(prefix []Decision) {
 		for _, r := range w.reached {
 			w.st.reach[r]++
 		}
-		w.maybeSample(end.kind)
+		if end.kind == "done" {
+			w.maybeSample(end.kind)
+		}
 	case "assume", "infeasible", "exhausted":
 		w.st.pathsAssume++
 	case "cut":
@@ -673,6 +679,10 @@ func (w *Worker) runFrame(fr *frame) {
 		*cnt += n
 		w.steps += n
 		if w.steps > w.ex.opt.MaxSteps && w.inInit == 0 {
+			if w.ex.opt.NonTermViolation {
+				w.reportViolation("unwind", "termination", "instruction budget exhausted (no progress?)", nil)
+				w.endPath("violation-end", "instruction budget")
+			}
 			w.endPath("cut", "instruction budget exhausted in "+fr.fi.name)
 		}
 		for _, instr := range nonPhis {
@@ -1069,6 +1079,10 @@ func (w *Worker) visitInstr(fr *frame, instr ssa.Instruction) continuation {
 			}
 			fr.brCount[instr]++
 			if fr.brCount[instr] > w.ex.opt.Unwind {
+				if w.ex.opt.NonTermViolation {
+					w.reportViolation("unwind", "termination/"+shortFn(fr.fi.name), "loop exceeds the unwinding bound "+fmt.Sprint(w.ex.opt.Unwind)+" at "+w.posString(instr.Cond.Pos()), nil)
+					w.endPath("violation-end", "unwinding bound")
+				}
 				w.endPath("cut", "unwinding bound at "+w.posString(instr.Cond.Pos())+" in "+fr.fi.name)
 			}
 			taken = w.decideTerm(c, "")
@@ -1628,4 +1642,11 @@ func zeroLike(v value) value {
 		return (*ssa.Function)(nil)
 	}
 	panic(unsupported{fmt.Sprintf("zeroLike %T", v)})
+}
+
+func shortFn(name string) string {
+	if i := strings.LastIndex(name, "/"); i >= 0 {
+		return name[i+1:]
+	}
+	return name
 }
